@@ -634,6 +634,18 @@ pub fn dec_async_chunked<F: Family>(b: &[u8], k: usize) -> (Result<F::Packet, F:
     (res, rd.pos)
 }
 
+/// the async decoder on a connection that stays open and idle behind the given bytes (a read issued once everything
+/// was delivered never becomes ready): Err(description) if the decoder is still waiting after all bytes were delivered
+pub fn dec_async_idle<F: Family>(b: &[u8]) -> Result<(Result<F::Packet, F::Error>, usize), String> {
+    let mut rd = ScriptedReader::new(b, &[]);
+    rd.idle_at_end = true;
+    let out = sio::poll_n(F::decode_async(&mut rd), 3);
+    match out {
+        Some(res) => Ok((res, rd.pos)),
+        None => Err(format!("still waiting after all {} bytes were delivered ({} reads issued on the idle connection)", b.len(), rd.idle_polls)),
+    }
+}
+
 #[derive(Debug, Clone, PartialEq)]
 pub struct PollOk<P> {
     pub total: usize,
